@@ -62,8 +62,8 @@ def _rets(fn):
   """[(Return stmt, resolved value)] of the value-returning returns, one entry per statement."""
   out, seen = [], set()
   for (n, s, v) in returns_of(fn):
-    if v is not None and id(s) not in seen:
-      seen.add(id(s))
+    if v is not None and (id(s), text(v)) not in seen:
+      seen.add((id(s), text(v)))
       out.append((s, v))
   return out
 
